@@ -51,6 +51,11 @@ func genC17(r *rt.Rand, tier string, idx int) *world.Scenario {
 		sc.MaxSteps = 80000
 		return sc
 	}
+	if (idx%5 == 3 || idx%5 == 4) && (idx/5)%4 == 2 {
+		// the expiry pass meets transient delete errors: an Event it could not remove stays whole
+		sc.Class += "+delete-errors"
+		sc.Rates.DelErr = 0.1 + 0.4*r.Float64()
+	}
 	pauses := []int64{10_000, 600_000, 1_790_000, 1_810_000, 3_590_000, 3_610_000, 4_000_000, 100_000}
 	var cl world.Client
 	cl.Ops = append(cl.Ops, world.Op{K: "watch", Key: prefix + "/", W: 1, Consume: "eager"})
@@ -222,6 +227,14 @@ func checkC17(c *Ctx) {
 			}
 			ix, hasIdx := idx[k]
 			hasNewest := vers[k][v.Rev]
+			if !hasIdx && hasNewest && w.Sc.Rates.DelErr > 0 {
+				// injected delete errors: the pass removed the index and could not remove a version. The
+				// statement's "together" has no fault in it; under faults the removal may stop half-way in
+				// this direction only (the key reads as absent and must be creatable again: epilogue),
+				// never the other way round (index left without its newest version: unreadable and uncreatable)
+				out.probe("expiry-interrupted-by-delete-error")
+				continue
+			}
 			if hasIdx != hasNewest && !(v.Tomb) {
 				upd := ""
 				if len(m.Keys[k]) > 1 {
